@@ -30,13 +30,22 @@
      than one grid step + slop on each side must make its document match; a document all of whose
      points are outside by more than 1e-6 + one grid step + slop must not match.  A box edge
      exactly at +-180 / +-90 imposes no margin on the inside test (no valid point lies beyond it).
-   * Circles and polygons: Coq cannot do trigonometry; each (point, query) pair arrives with a
+   * Polygons (CPoly): planar point-in-polygon is rational arithmetic, so both the SPEC (clearly
+     inside / clearly outside = crossing parity of Geo/Polygon.v on the exact indexed point, farther
+     than [poly_margin_S] = 3e-6 degrees from every edge) and the MODEL of the filter (vertex match
+     with tolerance 1e-6 -+ slop, crossing parity on the exactly decoded point, refusing to
+     predict when that point is within slop of an edge - the only place where the float
+     evaluation of rayIntersectsSegment can come out differently) are computed here; nothing is
+     classified by the harness.  Plain engines: candidates come from the box searcher on the
+     bounding rectangle (modelled as for CBox); s2: candidates come from the s2 covering (not
+     modelled) - there only the SPEC says that a clearly-inside point must be returned.
+   * Circles (and polygons of the older CShape form): Coq cannot do trigonometry; each (point, query) pair arrives with a
      three-valued class computed by the harness (0 clearly inside, 1 clearly outside, 2 near the
      boundary).  That classification is TRUSTED harness code (checks/C18.json).  This file
      combines the classes per document: SPEC = any-value rule; MODEL = the filter variant in force
      according to T1 (Extracted.XGeo.*_filter_early_return) and the engine's doc-value order. *)
 From Coq Require Import ZArith List Bool.
-From Verif Require Import Common.Bytes Numeric.Model Geo.Model Extracted.Extracted.
+From Verif Require Import Common.Bytes Numeric.Model Geo.Model Geo.Polygon Extracted.Extracted.
 Import ListNotations.
 Local Open Scope Z_scope.
 
@@ -60,6 +69,8 @@ Inductive case :=
 | CBox (e : engine) (tl_lon tl_lat br_lon br_lat : Z) (docs : list (list pt)) (impl_hits : list bool)
 | CShape (e : engine) (kind : shape_kind) (docs : list (list (Z * pclass))) (impl_hits : list bool)
     (* a point is (MortonHash, class supplied by the harness) *)
+| CPoly (e : engine) (poly : list (Z * Z)) (docs : list (list pt)) (impl_hits : list bool)
+    (* polygon vertices (lon, lat) as float64 bits, in the order given to the query *)
 | CSort (desc : bool) (lo hi : list Z) (impl_order : list Z).
     (* one point per document; [lo, hi] = interval (micrometres) that contains the document's true
        distance under every earth radius between polar and equatorial (trusted harness computation) *)
@@ -331,6 +342,91 @@ Definition check_shape (e : engine) (kind : shape_kind) (docs : list (list (Z * 
              tv_allows (spec_doc_shape d) hit && model_allows_shape e (shape_early kind) d hit)
           (combine docs hits).
 
+(* ---------- polygon queries: everything computed here ---------- *)
+
+Definition tv_and (a b : tv) : tv :=
+  match a, b with FF, _ | _, FF => FF | TT, TT => TT | _, _ => UU end.
+
+(* SPEC: any-value rule over the exact indexed points, with the margin *)
+Definition spec_doc_poly (k : Z) (poly : list vertex) (vals : list spt) : tv :=
+  let m := poly_margin_S k in
+  if existsb (fun v => clearly_in_poly m poly (s_lon v) (s_lat v)) vals then TT
+  else if forallb (fun v => clearly_out_poly m poly (s_lon v) (s_lat v)) vals then FF
+  else UU.
+
+(* MODEL: buildPolygonFilter on one decoded value, three-valued *)
+Definition poly_value_tv (k : Z) (poly : list vertex) (h : Z) : tv :=
+  let x := unhash_lon_S k h in let y := unhash_lat_S k h in
+  if existsb (vertex_match (tol_S k - slop_S k) x y) poly then TT
+  else if far_from_boundary (slop_S k) poly x y then
+    if pip poly x y then TT
+    else if existsb (vertex_match (tol_S k + slop_S k) x y) poly then UU else FF
+  else UU.
+
+Definition poly_filter_tv (k : Z) (early : bool) (poly : list vertex) (ordered : list Z) : tv :=
+  tv_any (poly_value_tv k poly) (visited_values early ordered).
+
+(* NewGeoBoundedPolygonSearcher on one document (values in doc-value order) *)
+Definition model_doc_poly_ordered (e : engine) (k : Z) (poly : list vertex) (bb : rect) (ordered : list Z) : tv :=
+  let filt := poly_filter_tv k XGeo.polygon_filter_early_return poly ordered in
+  match e with
+  | EScorchS2 => match filt with FF => FF | _ => UU end
+  | _ => tv_and (model_doc_rect k XGeo.rect_filter_early_return XGeo.polygon_check_boundaries bb ordered) filt
+  end.
+
+Definition model_allows_poly (e : engine) (k : Z) (poly : list vertex) (bb : rect) (vals : list Z) (hit : bool) : bool :=
+  match e with
+  | EUpsidedown =>
+      if XGeo.polygon_filter_early_return || XGeo.rect_filter_early_return then
+        match vals with
+        | [] => negb hit
+        | _ => existsb (fun o => tv_allows (model_doc_poly_ordered e k poly bb o) hit) (fronts [] vals)
+        end
+      else tv_allows (model_doc_poly_ordered e k poly bb vals) hit
+  | _ => tv_allows (model_doc_poly_ordered e k poly bb (dv_order_sorted vals)) hit
+  end.
+
+Record poly_view := { pv_k : Z; pv_poly : list vertex; pv_bb : rect; pv_docs : list (list spt) }.
+
+Definition poly_bits (poly : list (Z * Z)) : list Z := flat_map (fun v => [fst v; snd v]) poly.
+
+Definition to_vertex (k : Z) (v : Z * Z) : option vertex :=
+  match f64_dyadic (fst v), f64_dyadic (snd v) with
+  | Some a, Some b => Some (to_S k a, to_S k b)
+  | _, _ => None
+  end.
+
+Definition poly_view_of (poly : list (Z * Z)) (docs : list (list pt)) : option poly_view :=
+  match dy_list (poly_bits poly ++ all_bits docs) with
+  | Some ds =>
+      let k := scale_of ds in
+      match sequence_opt (map (to_vertex k) poly),
+            sequence_opt (map (fun dcs => sequence_opt (map (to_spt k) dcs)) docs) with
+      | Some vs, Some sdocs =>
+          match bounding_rect vs with
+          | Some bb => Some {| pv_k := k; pv_poly := vs; pv_bb := bb; pv_docs := sdocs |}
+          | None => None
+          end
+      | _, _ => None
+      end
+  | None => None
+  end.
+
+Definition check_poly (e : engine) (poly : list (Z * Z)) (docs : list (list pt)) (hits : list bool) : bool :=
+  match poly_view_of poly docs with
+  | Some v =>
+      let k := pv_k v in
+      (3 <=? length (pv_poly v))%nat &&
+      forallb (fun p => in_range_S k (fst p) (snd p)) (pv_poly v) &&
+      (length hits =? length (pv_docs v))%nat &&
+      forallb (forallb (spt_ok k)) (pv_docs v) &&
+      forallb (fun dh => let '(d, hit) := dh in
+                 tv_allows (spec_doc_poly k (pv_poly v) d) hit &&
+                 model_allows_poly e k (pv_poly v) (pv_bb v) (map s_hash d) hit)
+              (combine (pv_docs v) hits)
+  | None => false
+  end.
+
 (* ---------- distance sort ---------- *)
 
 Fixpoint pairs_ok {A} (f : A -> A -> bool) (l : list A) : bool :=
@@ -370,6 +466,7 @@ Definition check (c : case) : bool :=
       end
   | CBox e a b c d docs hits => check_box e a b c d docs hits
   | CShape e kind docs hits => check_shape e kind docs hits
+  | CPoly e poly docs hits => check_poly e poly docs hits
   | CSort desc lo hi order => check_sort desc lo hi order
   end.
 
@@ -409,5 +506,16 @@ Definition explain (c : case) : expl :=
   | CShape e kind docs hits =>
       EDocs (shape_early kind) (map (fun d => tv_code (spec_doc_shape d)) docs)
             (map (fun dh => model_allows_shape e (shape_early kind) (fst dh) (snd dh)) (combine docs hits)) []
+  | CPoly e poly docs hits =>
+      match poly_view_of poly docs with
+      | Some v =>
+          let k := pv_k v in
+          EDocs XGeo.polygon_filter_early_return
+                (map (fun d => tv_code (spec_doc_poly k (pv_poly v) d)) (pv_docs v))
+                (map (fun dh => model_allows_poly e k (pv_poly v) (pv_bb v) (map s_hash (fst dh)) (snd dh))
+                     (combine (pv_docs v) hits))
+                (map (map (spt_ok k)) (pv_docs v))
+      | None => ENone
+      end
   | CSort desc lo hi order => EB (is_perm_of_range (length lo) order) (ordered_by desc lo hi order)
   end.
